@@ -300,7 +300,7 @@ Theorem cli_projection i srcs lg c nw s : cli_sources fs glob gunzip probe flush
   cfg_ok c -> nw >= 1 ->
   reach lineid (classify (ci_mode i)) c (init lineid srcs nw) s ->
   (forall s', ~ step lineid (classify (ci_mode i)) c s s') ->
-  Permutation (shown (ci_mode i) (consumed lineid s)) (co_lines (cli_model fs glob gunzip probe flush i)) /\
+  Permutation (shown (ci_mode i) (consumed lineid s)) (shown (ci_mode i) (seq_keys lineid (classify (ci_mode i)) (input_of srcs))) /\
   exit_code (errs lineid s) (parse_errors (ci_mode i) (consumed lineid s)) (cM lineid s)
     = co_exit (cli_model fs glob gunzip probe flush i).
 Proof.
@@ -309,7 +309,27 @@ Proof.
   split.
   - unfold shown. destruct (fst (ci_mode i)) as [|[[q|q|]|[q|q|]|]]; simpl; try exact P. constructor.
   - rewrite E, M, <- length_seq_keys. f_equal.
-    unfold parse_errors. destruct (fst (ci_mode i)) as [|[[q|q|]|[q|q|]|]]; auto. now apply perm_filter_length.
+    unfold parse_errors. destruct (fst (ci_mode i)) as [|[[q|q|]|[q|q|]|]]; auto. destruct (is_reduce (ci_mode i)); auto. now apply perm_filter_length.
+Qed.
+
+(* asking for the csv export does not change the exit status of an aggregating command *)
+Definition with_mode (i : cli_in) (m : N * N) : cli_in :=
+  mkin (ci_args i) (ci_recursive i) (ci_gunzip i) (ci_batch i) (ci_stdin i) (ci_stdin_err i) m.
+Theorem exit_independent_of_csv i q1 q2 : agg_cmd (2%N, q1) = agg_cmd (2%N, q2) ->
+  co_exit (cli_model fs glob gunzip probe flush (with_mode i (2%N, q1))) =
+  co_exit (cli_model fs glob gunzip probe flush (with_mode i (2%N, q2))) /\
+  co_nlog (cli_model fs glob gunzip probe flush (with_mode i (2%N, q1))) =
+  co_nlog (cli_model fs glob gunzip probe flush (with_mode i (2%N, q2))).
+Proof.
+  intros H. unfold cli_model.
+  change (cli_sources fs glob gunzip probe flush (with_mode i (2%N, q1))) with (cli_sources fs glob gunzip probe flush i).
+  change (cli_sources fs glob gunzip probe flush (with_mode i (2%N, q2))) with (cli_sources fs glob gunzip probe flush i).
+  destruct (cli_sources fs glob gunzip probe flush i) as [[srcs lg]|]; [|split; reflexivity].
+  cbn [co_exit co_nlog ci_mode with_mode].
+  assert (E : parse_errors (2%N, q1) (seq_keys lineid (classify (2%N, q1)) (input_of srcs)) =
+              parse_errors (2%N, q2) (seq_keys lineid (classify (2%N, q2)) (input_of srcs))).
+  { unfold parse_errors, is_reduce. cbn [fst]. rewrite H. reflexivity. }
+  rewrite E. split; reflexivity.
 Qed.
 
 End InputProof.
